@@ -16,7 +16,10 @@ use self::config::{
 };
 use crate::{
     config::{create_owned_dir, get_user_antnode_data_dir},
-    helpers::{check_port_availability, get_start_port_if_applicable, increment_port_option},
+    helpers::{
+        check_port_availability, get_start_port_if_applicable, increment_port_option,
+        port_options_overlap,
+    },
     VerbosityLevel, DAEMON_SERVICE_NAME,
 };
 use ant_service_management::{
@@ -84,6 +87,18 @@ pub async fn add_node(
     if let Some(port_option) = &options.rpc_port {
         port_option.validate(options.count.unwrap_or(1))?;
         check_port_availability(port_option, &node_registry.nodes)?;
+    }
+
+    // The requested ports must not collide with each other either: a service added by this call
+    // records its ports before the next one is set up.
+    if port_options_overlap(&options.node_port, &options.metrics_port)
+        || port_options_overlap(&options.node_port, &options.rpc_port)
+        || port_options_overlap(&options.metrics_port, &options.rpc_port)
+    {
+        error!("The requested port ranges overlap");
+        return Err(eyre!(
+            "The requested port ranges overlap: services added together would be given the same port"
+        ));
     }
 
     let owner = match &options.owner {
